@@ -497,3 +497,401 @@ func rpC26(w *World) {
 		w.violation("writer|per-byte", esc.Decl.Pos(), "EscapeBytes uses its input other than through len(data)/data[i]: escaping may depend on context")
 	}
 }
+
+// ---- RP3: character-class agreement between the two lexers (C25) and with the specification (C14)
+
+type charClasses map[string]string // class name -> 128-character signature over ASCII ('1' in, '0' out, '?' undecidable)
+
+func lexerClasses(w *World, rel, recvType string) charClasses {
+	p := w.pkg(rel)
+	if p == nil {
+		return nil
+	}
+	info := p.TypesInfo
+	out := charClasses{}
+	sig := func(cond ast.Expr, v string) string {
+		var sb strings.Builder
+		for ch := int64(0); ch < 128; ch++ {
+			switch evalWithStrings(info, cond, v, ch) {
+			case triTrue:
+				sb.WriteByte('1')
+			case triFalse:
+				sb.WriteByte('0')
+			default:
+				sb.WriteByte('?')
+			}
+		}
+		return sb.String()
+	}
+	lex := w.fn(rel, "(*"+recvType+").Lex")
+	if lex == nil {
+		return nil
+	}
+	// the rune variable: first result of the first readRune assignment in Lex
+	v := ""
+	ast.Inspect(lex.Decl.Body, func(x ast.Node) bool {
+		if as, ok := x.(*ast.AssignStmt); ok && v == "" && len(as.Rhs) == 1 {
+			if c, ok := as.Rhs[0].(*ast.CallExpr); ok {
+				if s, ok := ast.Unparen(c.Fun).(*ast.SelectorExpr); ok && s.Sel.Name == "readRune" {
+					v = render(as.Lhs[0])
+				}
+			}
+		}
+		return true
+	})
+	callsIn := func(blk *ast.BlockStmt, name string) bool {
+		found := false
+		for _, st := range blk.List {
+			ast.Inspect(st, func(y ast.Node) bool {
+				if _, isIf := y.(*ast.IfStmt); isIf {
+					return false // only the guard's own statements, not nested guards
+				}
+				if c, ok := y.(*ast.CallExpr); ok {
+					if s, ok := ast.Unparen(c.Fun).(*ast.SelectorExpr); ok && s.Sel.Name == name {
+						found = true
+					}
+				}
+				return true
+			})
+		}
+		return found
+	}
+	ast.Inspect(lex.Decl.Body, func(x ast.Node) bool {
+		ifs, ok := x.(*ast.IfStmt)
+		if !ok {
+			return true
+		}
+		s := sig(ifs.Cond, v)
+		if !strings.Contains(s, "?") && len(ifs.Body.List) > 0 {
+			if bs, ok := ifs.Body.List[len(ifs.Body.List)-1].(*ast.BranchStmt); ok && bs.Tok == token.CONTINUE {
+				if _, have := out["whitespace"]; !have && strings.Contains(s, "1") && s[' '] == '1' {
+					out["whitespace"] = s
+				}
+			}
+		}
+		for class, callee := range map[string]string{"ident-start": "readIdentifier", "number-start": "readNumber", "string-start": "readStringLiteral"} {
+			if callsIn(ifs.Body, callee) {
+				if prev, have := out[class]; !have || (!strings.Contains(prev, "1") && strings.Contains(s, "1")) {
+					out[class] = s
+				}
+			}
+		}
+		return true
+	})
+	// continuation classes from the break conditions of readIdentifier / readNumber
+	for class, fname := range map[string]string{"ident-continue": "readIdentifier", "number-continue": "readNumber"} {
+		fr := w.fn(rel, "(*"+recvType+")."+fname)
+		if fr == nil {
+			continue
+		}
+		fv := ""
+		ast.Inspect(fr.Decl.Body, func(x ast.Node) bool {
+			if as, ok := x.(*ast.AssignStmt); ok && fv == "" && len(as.Rhs) == 1 {
+				if c, ok := as.Rhs[0].(*ast.CallExpr); ok {
+					if s, ok := ast.Unparen(c.Fun).(*ast.SelectorExpr); ok && s.Sel.Name == "readRune" {
+						fv = render(as.Lhs[0])
+					}
+				}
+			}
+			return true
+		})
+		var parts []string
+		ast.Inspect(fr.Decl.Body, func(x ast.Node) bool {
+			ifs, ok := x.(*ast.IfStmt)
+			if !ok {
+				return true
+			}
+			hasBreak := false
+			for _, st := range ifs.Body.List {
+				if bs, ok := st.(*ast.BranchStmt); ok && bs.Tok == token.BREAK {
+					hasBreak = true
+				}
+			}
+			if hasBreak && !strings.Contains(types.ExprString(ifs.Cond), "err") {
+				parts = append(parts, sig(ifs.Cond, fv))
+			}
+			return true
+		})
+		if len(parts) > 0 {
+			out[class] = strings.Join(parts, "|")
+		}
+	}
+	return out
+}
+
+// evalWithStrings is evalWith plus strings.ContainsRune(lit, v).
+func evalWithStrings(info *types.Info, e ast.Expr, v string, val int64) tri {
+	e = ast.Unparen(e)
+	switch x := e.(type) {
+	case *ast.CallExpr:
+		if f := callee(info, x); f != nil && f.Pkg() != nil && f.Pkg().Path() == "strings" && f.Name() == "ContainsRune" && len(x.Args) == 2 && render(x.Args[1]) == v {
+			if tv, ok := info.Types[x.Args[0]]; ok && tv.Value != nil && tv.Value.Kind() == constant.String {
+				return triOf(strings.ContainsRune(constant.StringVal(tv.Value), rune(val)))
+			}
+		}
+		return triUnknown
+	case *ast.BinaryExpr:
+		if x.Op == token.LAND || x.Op == token.LOR {
+			a, b := evalWithStrings(info, x.X, v, val), evalWithStrings(info, x.Y, v, val)
+			if x.Op == token.LAND {
+				if a == triFalse || b == triFalse {
+					return triFalse
+				}
+				if a == triTrue && b == triTrue {
+					return triTrue
+				}
+				return triUnknown
+			}
+			if a == triTrue || b == triTrue {
+				return triTrue
+			}
+			if a == triFalse && b == triFalse {
+				return triFalse
+			}
+			return triUnknown
+		}
+	case *ast.UnaryExpr:
+		if x.Op == token.NOT {
+			switch evalWithStrings(info, x.X, v, val) {
+			case triTrue:
+				return triFalse
+			case triFalse:
+				return triTrue
+			}
+			return triUnknown
+		}
+	}
+	return evalWith(info, e, v, val)
+}
+
+func describeClass(sig string) string {
+	var parts []string
+	for _, part := range strings.Split(sig, "|") {
+		var sb strings.Builder
+		for ch := 0; ch < len(part) && ch < 128; ch++ {
+			if part[ch] == '1' {
+				q := fmt.Sprintf("%q", rune(ch))
+				sb.WriteString(q[1 : len(q)-1])
+			}
+		}
+		parts = append(parts, sb.String())
+	}
+	return strings.Join(parts, " | ")
+}
+
+func rp3LexerClasses(w *World, withSpec bool) {
+	w.rule("RP3")
+	a := lexerClasses(w, "parser", "protoLex")
+	b := lexerClasses(w, "parser/fastscan", "lexer")
+	if a == nil || b == nil {
+		return
+	}
+	classes := []string{"whitespace", "ident-start", "number-start", "string-start", "ident-continue", "number-continue"}
+	n := 0
+	for _, c := range classes {
+		sa, oka := a[c]
+		sb, okb := b[c]
+		key := "class-agree|" + c
+		switch {
+		case !oka || !okb:
+			w.undecided(key, token.NoPos, fmt.Sprintf("character class %q could not be extracted from both lexers (parser=%v fastscan=%v)", c, oka, okb))
+		case sa == sb:
+			n++
+			w.ok(key, token.NoPos, "parser lexer and fast scanner use the same "+c+" set: "+describeClass(sa))
+		default:
+			var diff []string
+			for i := 0; i < len(sa) && i < len(sb); i++ {
+				if sa[i] != sb[i] && sa[i] != '|' {
+					diff = append(diff, fmt.Sprintf("%q", rune(i%129)))
+				}
+			}
+			w.violation(key, token.NoPos, fmt.Sprintf("the fast scanner's %s character set differs from the full lexer's (differs at %s): the scanner tokenises some accepted files differently", c, strings.Join(diff, " ")))
+		}
+	}
+	w.floor("character classes compared between the lexers", n, 0)
+	if !withSpec {
+		return
+	}
+	spec := map[string]func(ch int) bool{
+		"whitespace":   func(ch int) bool { return strings.ContainsRune(" \t\n\r\f\v", rune(ch)) },
+		"ident-start":  func(ch int) bool { return ch == '_' || ch >= 'a' && ch <= 'z' || ch >= 'A' && ch <= 'Z' },
+		"string-start": func(ch int) bool { return ch == '"' || ch == '\'' },
+		"ident-continue": func(ch int) bool {
+			return !(ch == '_' || ch >= 'a' && ch <= 'z' || ch >= 'A' && ch <= 'Z' || ch >= '0' && ch <= '9')
+		},
+	}
+	for _, c := range []string{"whitespace", "ident-start", "string-start", "ident-continue"} {
+		s, ok := a[c]
+		if !ok {
+			continue
+		}
+		bad := ""
+		for ch := 0; ch < 128 && ch < len(s); ch++ {
+			want := byte('0')
+			if spec[c](ch) {
+				want = '1'
+			}
+			if s[ch] != want {
+				bad += fmt.Sprintf(" %q", rune(ch))
+			}
+		}
+		key := "class-spec|" + c
+		if bad == "" {
+			w.ok(key, token.NoPos, "the full lexer's "+c+" set equals the language specification's")
+		} else {
+			w.violation(key, token.NoPos, "the full lexer's "+c+" set differs from the language specification at"+bad)
+		}
+	}
+}
+
+func rp3C25(w *World) { rp3LexerClasses(w, false) }
+func rp3C14(w *World) { rp3LexerClasses(w, true) }
+
+// ---- RP2: bounded digit counts of the numeric escapes; RH-num: float conversion helper -----------
+
+func rp2EscapeBounds(w *World) {
+	w.rule("RP2")
+	for _, sp := range [][2]string{{"parser", "(*protoLex).readStringLiteral"}, {"parser/fastscan", "(*lexer).readStringLiteral"}} {
+		fr := w.fn(sp[0], sp[1])
+		if fr == nil {
+			continue
+		}
+		info := fr.Pkg.TypesInfo
+		var sw *ast.SwitchStmt
+		n := 0
+		ast.Inspect(fr.Decl.Body, func(x ast.Node) bool {
+			if s, ok := x.(*ast.SwitchStmt); ok && len(s.Body.List) > n {
+				sw, n = s, len(s.Body.List)
+			}
+			return true
+		})
+		if sw == nil {
+			continue
+		}
+		tag := ""
+		if sw.Tag != nil {
+			tag = render(sw.Tag)
+		}
+		for _, cl := range sw.Body.List {
+			cc := cl.(*ast.CaseClause)
+			if cc.List == nil {
+				continue
+			}
+			// classify the clause by a representative letter
+			kind := ""
+			for _, probe := range []struct {
+				ch   int64
+				name string
+				max  int
+			}{{'x', "hex", 2}, {'3', "octal", 2}, {'u', "u", 0}, {'U', "U", 0}} {
+				match := false
+				for _, e := range cc.List {
+					if tag != "" {
+						if tv, ok := info.Types[e]; ok && tv.Value != nil {
+							if v, ok := constant.Int64Val(constant.ToInt(tv.Value)); ok && v == probe.ch {
+								match = true
+							}
+						}
+					} else if evalWith(info, e, clauseVar(info, cc), probe.ch) == triTrue {
+						match = true
+					}
+				}
+				if match {
+					kind = probe.name
+				}
+			}
+			if kind == "" {
+				continue
+			}
+			reads, loops := 0, 0
+			var makeSizes []int64
+			for _, st := range cc.Body {
+				ast.Inspect(st, func(y ast.Node) bool {
+					switch e := y.(type) {
+					case *ast.ForStmt, *ast.RangeStmt:
+						loops++
+					case *ast.CallExpr:
+						if s, ok := ast.Unparen(e.Fun).(*ast.SelectorExpr); ok && s.Sel.Name == "readRune" {
+							reads++
+						}
+						if isBuiltinCall(info, e, "make") && len(e.Args) == 2 {
+							if tv, ok := info.Types[e.Args[1]]; ok && tv.Value != nil {
+								v, _ := constant.Int64Val(tv.Value)
+								makeSizes = append(makeSizes, v)
+							}
+						}
+					}
+					return true
+				})
+			}
+			key := "escape-bound|" + fr.Name + "|" + kind
+			switch kind {
+			case "hex", "octal":
+				if loops == 0 && reads == 2 {
+					w.ok(key, cc.Pos(), fmt.Sprintf("the %s escape reads at most 2 further characters (straight-line code, %d reads): \\x takes at most two hex digits, an octal escape at most three digits in total", kind, reads))
+				} else if loops > 0 {
+					w.undecided(key, cc.Pos(), fmt.Sprintf("the %s escape is decoded by a loop (%d reads): the bound on consumed digits (hex 2, octal 3 in total) can no longer be read off the code shape — review the loop bound", kind, reads))
+				} else {
+					w.violation(key, cc.Pos(), fmt.Sprintf("the %s escape reads %d further characters; the language allows at most 2 (\\xHH, \\OOO)", kind, reads))
+				}
+			case "u", "U":
+				want := int64(4)
+				if kind == "U" {
+					want = 8
+				}
+				okSize := false
+				for _, m := range makeSizes {
+					if m == want {
+						okSize = true
+					}
+				}
+				if okSize && loops >= 1 {
+					w.ok(key, cc.Pos(), fmt.Sprintf("\\%s reads into a buffer of exactly %d hex digits", kind, want))
+				} else {
+					w.violation(key, cc.Pos(), fmt.Sprintf("\\%s does not read a fixed group of %d hex digits (buffers: %v)", kind, want, makeSizes))
+				}
+			}
+		}
+	}
+	// RH-num: strconv.ParseFloat only inside the parseFloat helper of package parser
+	p := w.pkg("parser")
+	helper := w.fn("parser", "parseFloat")
+	if p == nil || helper == nil {
+		return
+	}
+	n := 0
+	for _, b := range allFuncBodies(p) {
+		if b.Lit != nil {
+			continue
+		}
+		ast.Inspect(b.Body, func(x ast.Node) bool {
+			if c, ok := x.(*ast.CallExpr); ok {
+				if f := callee(p.TypesInfo, c); f != nil && f.Pkg() != nil && f.Pkg().Path() == "strconv" && f.Name() == "ParseFloat" {
+					n++
+					if b.Obj == helper.Obj {
+						w.ok("float-conversion|"+b.Label, c.Pos(), "float literals are converted only by the parseFloat helper, which maps overflow to ±Inf as protoc's strtod does")
+					} else {
+						w.violation("float-conversion|"+b.Label, c.Pos(), "strconv.ParseFloat called outside the parseFloat helper: the overflow-to-infinity rule (and underscore rejection) of numeric literals is bypassed here")
+					}
+				}
+			}
+			return true
+		})
+	}
+	w.floor("strconv.ParseFloat call sites in package parser", n, 1)
+}
+
+func clauseVar(info *types.Info, cc *ast.CaseClause) string {
+	v := ""
+	for _, e := range cc.List {
+		ast.Inspect(e, func(y ast.Node) bool {
+			if be, ok := y.(*ast.BinaryExpr); ok && v == "" {
+				if tv, ok := info.Types[be.Y]; ok && tv.Value != nil {
+					v = render(be.X)
+				}
+			}
+			return true
+		})
+	}
+	return v
+}
